@@ -29,7 +29,8 @@ def run(ctx):
     for o in obs:
         if o.tag in TAGS:
             res.check(o.ok, TAGS[o.tag], o.key, o.loc, o.detail)
-    res.extra["accessor_stats"] = stats
+    res.extra["accessor_stats"] = {k: v for k, v in stats.items() if k != "unsupported"}
+    accessors.require_supported(stats)
     from rules import c13
     for o in c13.run(ctx).obligations:
         if o["rule"] == "C13-R3":
